@@ -167,6 +167,15 @@ class C13(XsProp):
                     c, w, [x for x in st[:iu] if x.startswith('push')], ra, sa, [x for x in st[iu:] if x.startswith('push')], rb, sb),
                     'word %s behaves differently on tagged arguments' % w))
                 continue
+            # the words that compute a new number / flag return an untagged cell even when the result equals an argument
+            FRESH = {'+', '-', '*', '/', 'rem', 'neg', 'abs', 'min', 'max', 'band', 'bor', 'bxor', 'bnot', 'bsl', 'bsr', 'popcnt', 'round',
+                     '<', '<=', '>', '>=', '==', '<>', 'and', 'or', 'xor', 'not', 'zero?', 'positive?', 'negative?', 'length', 'equal?'}
+            wname = (src_of(c) or [''])[-1].split(' ')[-1]
+            if wname in FRESH and rb == 'ok':
+                top = [t for t in sb.strip('[] ').split(' ') if t][-1:]
+                if top and top[0].startswith('G('):
+                    fails.append(('case: %s\nword: %s\nresult: %s' % (c, wname, sb), 'the result of `%s` carries the tags of an argument' % wname))
+                    continue
             # fresh results carry no tags: every tagged cell of the result occurs in an argument
             argtxt = ' '.join(x[5:] for x in st[iu:] if x.startswith('push'))
             for cell in sb.strip('[] ').split(' '):
